@@ -36,12 +36,12 @@ def run(c):
         # three state spaces side by side (distinct cfg files so that the derived configs do not collide)
         c.parallel([
             lambda: c.tlc_model("DistMatrixModel", constants=dict(base, MinNP=1, MaxNP=2, MaskStride=1 if th else 4, MaskOff=0 if th else off % 4),
-                                workers=6, coverage=False),     # (-coverage slows TLC down several times: collected on the small space only)
+                                workers=6, coverage=False, heap="4g"),     # (-coverage slows TLC down several times: collected on the small space only)
             lambda: c.tlc_model("DistMatrixModel", cfg="DistMatrixModel3.cfg",
-                                constants=dict(base, MinNP=3, MaxNP=3, MaskStride=4 if th else 64, MaskOff=off % 4 if th else off), workers=6 if not th else 12, timeout=2400, coverage=False),
+                                constants=dict(base, MinNP=3, MaxNP=3, MaskStride=4 if th else 64, MaskOff=off % 4 if th else off), workers=6 if not th else 12, timeout=2400, coverage=False, heap="6g"),
             lambda: c.tlc_model("DistMatrixModel", cfg="DistMatrixModelRect.cfg",
                                 constants={"N": 2, "M": 3, "SamePart": "FALSE", "MinNP": 1, "MaxNP": 2,
-                                           "MaskStride": 1 if th else 2, "MaskOff": 0 if th else off % 2}, workers=4)])
+                                           "MaskStride": 1 if th else 2, "MaskOff": 0 if th else off % 2}, workers=4, heap="3g")])
 
     def validate(t, label, chunk):
         # a crashed recorder (already reported by c.record) may leave a truncated last line
@@ -49,7 +49,7 @@ def run(c):
         if not lines:
             return None
         open(t, "w").write("\n".join(lines) + "\n")
-        return c.tlc_trace("C11Trace", t, label=label, chunk=chunk, env=XSS)
+        return c.tlc_trace("C11Trace", t, label=label, chunk=chunk, env=XSS, heap="3g")
 
     def code():
         rd = c.build("record_dist", ["record_dist.cpp"], mpi=True)
@@ -74,7 +74,7 @@ def run(c):
                 sub = c.path("drift-%d.ndjson" % n)
                 pick = [x for x in res["lines"] if x.startswith('{"k":"pattern"') or x.startswith('{"k":"build"')]
                 open(sub, "w").write("\n".join(pick) + "\n")
-                res["drift"] = c.tlc_trace("C11Trace", sub, label="drift@%dranks" % n, env=dict(XSS, C11MODE="drift"))["bad"] if pick else []
+                res["drift"] = c.tlc_trace("C11Trace", sub, label="drift@%dranks" % n, env=dict(XSS, C11MODE="drift"), heap="3g")["bad"] if pick else []
             return res
         for res in c.parallel([lambda j=j: one(j) for j in jobs], max_workers=3):
             if res is None:
